@@ -118,13 +118,20 @@ fn alias<B: Backend>(name: &'static str, packing: TablePacking) -> Result<Box<dy
 /// One Horner chain of three steps (with K = 2: one packed pair + one single step) starting
 /// from the zero accumulator, followed by an Add that reads the chain's result.
 fn horner<B: Backend>(name: &'static str, packing: TablePacking) -> Result<Box<dyn Case>, String> {
+    horner_n::<B>(name, packing, 3)
+}
+
+/// `steps`-step Horner chain from the zero accumulator: under packing factor K the scheduler cuts
+/// it into rows of arity K and a shorter tail (3 steps: K=2 -> 2+1, K=3 -> 3, K=4 -> 3 < K;
+/// 7 steps with K=4 -> 4+3).
+fn horner_n<B: Backend>(name: &'static str, packing: TablePacking, steps: usize) -> Result<Box<dyn Case>, String> {
     let mut b = B::new_builder();
     let alpha = b.public_input();
-    let zs: Vec<ExprId> = (0..3).map(|_| b.public_input()).collect();
-    let xs: Vec<ExprId> = (0..3).map(|_| b.public_input()).collect();
+    let zs: Vec<ExprId> = (0..steps).map(|_| b.public_input()).collect();
+    let xs: Vec<ExprId> = (0..steps).map(|_| b.public_input()).collect();
     let zero = b.define_const(B::EF::ZERO);
     let mut acc = zero;
-    for i in 0..3 {
+    for i in 0..steps {
         acc = b.horner_acc_step(acc, alpha, zs[i], xs[i]);
     }
     let c = b.define_const(tag::<B>(9));
@@ -132,10 +139,10 @@ fn horner<B: Backend>(name: &'static str, packing: TablePacking) -> Result<Box<d
     let expected = b.public_input();
     b.connect(r, expected);
     let av = tag::<B>(3);
-    let zv: Vec<B::EF> = (0..3).map(|i| tag::<B>(20 + i)).collect();
-    let xv: Vec<B::EF> = (0..3).map(|i| tag::<B>(40 + 3 * i)).collect();
+    let zv: Vec<B::EF> = (0..steps as u64).map(|i| tag::<B>(20 + i)).collect();
+    let xv: Vec<B::EF> = (0..steps as u64).map(|i| tag::<B>(40 + 3 * i)).collect();
     let mut accv = B::EF::ZERO;
-    for i in 0..3 {
+    for i in 0..steps {
         accv = accv * av + zv[i] - xv[i];
     }
     let mut public = vec![av];
@@ -504,6 +511,11 @@ pub fn catalogue() -> Vec<Spec> {
         spec!("bb1-arith", BbD1, "const, public, private input, ALU Add/Mul (forward+backward)/MulAdd/BoolCheck; D=1", |n| arith::<BbD1>(n, TablePacking::default())),
         spec!("bb1-alias", BbD1, "ops whose ports share a slot (x*y+x, x*x+y, x+x, y*y, Horner with aliased operands); D=1", |n| alias::<BbD1>(n, TablePacking::default())),
         spec!("bb1-horner", BbD1, "HornerAcc chain (packed pair + single step), zero accumulator; D=1", |n| horner::<BbD1>(n, TablePacking::default())),
+        spec!("bb1-horner-k3", BbD1, "3-step chain as one packed row of arity 3 = K_max", |n| horner::<BbD1>(n, TablePacking::new(1, 1).with_horner_pack_k(3))),
+        spec!("bb1-horner-k4", BbD1, "3-step chain as one packed row of arity 3 < K_max = 4", |n| horner::<BbD1>(n, TablePacking::new(1, 1).with_horner_pack_k(4))),
+        spec!("bb1-horner7-k4", BbD1, "7-step chain under K_max = 4: rows of arity 4 and 3", |n| horner_n::<BbD1>(n, TablePacking::new(1, 1).with_horner_pack_k(4), 7)),
+        spec!("bb1-horner7-k5", BbD1, "7-step chain under K_max = 5: rows of arity 5 and 2", |n| horner_n::<BbD1>(n, TablePacking::new(1, 1).with_horner_pack_k(5), 7)),
+        spec!("bb1-horner7-k3-l2", BbD1, "7-step chain under K_max = 3, two ALU lanes", |n| horner_n::<BbD1>(n, TablePacking::new(1, 2).with_horner_pack_k(3), 7)),
         spec!("bb1-bits", BbD1, "decompose_to_bits hint, BoolCheck, reconstruction; D=1", |n| bits::<BbD1>(n, TablePacking::default())),
         spec!("bb4-arith", BbD4, "ALU kinds over the binomial quartic extension", |n| arith::<BbD4>(n, TablePacking::default())),
         spec!("bb4-horner", BbD4, "HornerAcc chain over the quartic extension", |n| horner::<BbD4>(n, TablePacking::default())),
@@ -527,5 +539,5 @@ pub fn catalogue() -> Vec<Spec> {
 }
 
 /// Circuits of the quick tier, cheapest first (the budget cuts from the end).
-pub const QUICK: [&str; 7] =
-    ["bb1-arith", "bb1-alias", "bb1-horner", "bb4-recompose", "bb4-challenger", "bb1-bits", "bb4-merkle"];
+pub const QUICK: [&str; 9] =
+    ["bb1-arith", "bb1-alias", "bb1-horner", "bb1-horner-k4", "bb1-horner7-k4", "bb4-recompose", "bb4-challenger", "bb1-bits", "bb4-merkle"];
